@@ -241,6 +241,17 @@ def detect_ways(ctx, kind, sample, data, tmp):
     def outcome(thing):
         try:
             o = mutagen.File(thing)
+            if o is not None and not isinstance(thing, (str, bytes, pathlib.PurePath)):
+                # an instance made from a file OBJECT has no file name of its own, exactly as when the type is called
+                # directly: a later save() without argument must not reach for a path
+                direct = None
+                try:
+                    thing.seek(0)
+                    direct = type(o)(thing).filename
+                except Exception:
+                    pass
+                if o.filename != direct:
+                    return "%s with .filename=%r (the type called directly gives %r)" % (type(o).__name__, o.filename, direct)
             return type(o).__name__
         except mutagen.MutagenError as e:
             return "MutagenError"
